@@ -115,7 +115,9 @@ def read_facts():
     facts.append(('iterator_constructor_resets_the_mode', bool(re.search(r'\.\s*scanner_impl\s*\.\s*reset\s*\(\s*\)', nw)),
                   'FindMatchesImpl::new must call scanner_impl.reset()'))
     rs = fn_body(codes['internal/scanner_impl.rs'], 'reset') or ''
-    facts.append(('reset_sets_mode_zero', bool(re.fullmatch(r'\{\s*self\s*\.\s*current_mode\s*=\s*0\s*;\s*\}', rs.strip())),
+    # logging statements are not state: ignore trace!/debug!/info!/warn! invocations
+    rs_nolog = re.sub(r'\b(?:log\s*::\s*)?(?:trace|debug|info|warn)\s*!\s*\((?:[^()]|\([^()]*\))*\)\s*;', '', rs)
+    facts.append(('reset_sets_mode_zero', bool(re.fullmatch(r'\{\s*self\s*\.\s*current_mode\s*=\s*0\s*;\s*\}', rs_nolog.strip())),
                   'ScannerImpl::reset must be exactly `self.current_mode = 0;` (the model resets nothing else, there is nothing else): %r' % rs[:120]))
     ff = fn_body(codes['internal/compiled_dfa.rs'], 'find_from') or ''
     head = ff.split('for ', 1)[0] if 'for ' in ff else ''
